@@ -327,6 +327,13 @@ def make_cell(rng, family, min_width, tight_axes, tight=1.02, roomy=(1.6, 3.0), 
     if sign is None:
         sign = tuple(rng.choice((-1, 1)) for _ in range(3))
     a, b, c = target
+    if family == "tri_big":
+        # LAMMPS-oriented but NOT reduced: tilt factors beyond half the box length are legal for mofun
+        hi = 0.95
+        xy = sign[0] * rng.uniform(0.3, hi) * a
+        xz = sign[1] * rng.uniform(0.3, hi) * a
+        yz = sign[2] * rng.uniform(0.3, hi) * b
+        return np.array([[a, 0, 0], [xy, b, 0], [xz, yz, c]], float)
     xy = sign[0] * rng.uniform(0.05, 0.5) * a
     xz = sign[1] * rng.uniform(0.05, 0.5) * a
     yz = sign[2] * rng.uniform(0.05, 0.5) * b
